@@ -903,7 +903,13 @@ async fn input_processing(
             .enumerate()
         {
             if let Some(mask_other) = mask_other {
-                if masked_input.is_some() {
+                // Only the owner of an input wire announces its masked value: a value for any
+                // other register has no label (and no mask) to go with it.
+                let is_input_of_p = matches!(
+                    circ.insts.get(w).map(|inst| inst.op),
+                    Some(Op::Input(Input { party, .. })) if party as usize == p
+                );
+                if masked_input.is_some() || !is_input_of_p {
                     return Err(MpcError::ConflictingInputMask(w).into());
                 }
                 *masked_input = Some(*mask_other);
